@@ -378,9 +378,20 @@ def _dict(ip, args, kw):
     return ip.st.alloc({'k': 'dict', 'd': d})
 
 
+class SymEnumerate:
+    """enumerate() over a sequence of symbolic length (only a loop with an invariant can iterate it)"""
+
+    def __init__(self, seq, start):
+        self.seq, self.start = seq, start
+
+
 @builtin(enumerate)
 def _enumerate(ip, args, kw):
     start = args[1] if len(args) > 1 else kw.get('start', 0)
+    if ip.meta_items(args[0]) is None and not has_sym(start) and ip.st.ghost.get('unroll_bound') is None:
+        sq = ip.seq_view(args[0])
+        if sq is not None and not z3.is_int_value(simp(z3.Length(sq.e))):
+            return SymEnumerate(args[0], start)      # (previously unsupported: length not decided on this path)
     return tuple((start + i, x) for i, x in enumerate(ip.iter_values(args[0])))
 
 
